@@ -283,4 +283,39 @@ def rule_e(prog, rep):
                       key=f'C18.e/stored={sv}/persisted={pv}/restored={rv}', expected='stored == persisted and restored == persisted')
 
 
-RULES = [('C18.a', rule_a), ('C18.b', rule_b), ('C18.c', rule_c), ('C18.d', rule_d), ('C18.e', rule_e)]
+def rule_f(prog, rep):
+    rep.rule('C18.f', 'T3', 'one registration that cannot be applied does not cost the database: in the redb loader the loops of '
+             'apply_grave_good / apply_last_will (and the table loops of apply_pending_grave_goods / apply_pending_last_wills) are '
+             'left early only by database errors - the result of a store-level call on client-supplied text '
+             '(Store::delete_matches, parse_segments, Store::insert_plain: IllegalMultiWildcard, IllegalWildcard, ..) is handled '
+             'inside the iteration, never propagated with `?` (load would fail, the server would start empty and, the '
+             'transaction not being committed, do so on every later start)')
+    crate = prog.crate(WB)
+    client_text_calls = (f'{STORE}::delete_matches', f'{STORE}::insert_plain', f'{STORE}::insert', f'{STORE}::insert_cas')
+    n = 0
+    for fname in ('apply_grave_good', 'apply_last_will'):
+        f = crate.fn(f'{REDB}::{fname}')
+        loops = [nd for nd, a in crate.walk_fn(f) if nd.get('k') == 'for']
+        if not loops:
+            raise AnchorMissing(f'loop in {fname}')
+        bad = []
+        for nd, anc in walk(loops[0]['body']):
+            if nd.get('k') != 'try':
+                continue
+            inner = nd['e']
+            while inner.get('k') in ('await',):
+                inner = inner['e']
+            if inner.get('k') == 'call':
+                c = callee(inner)
+                if c in client_text_calls or c.endswith('parse_segments') or c.endswith('KeySegment::parse'):
+                    bad.append(short(c))
+        n += 1
+        if bad:
+            rep.violation('C18.f', fname, f.loc, f'`?` on {sorted(set(bad))} inside the loop: one entry that cannot be applied aborts the load',
+                          key=f'C18.f/{fname}/' + '|'.join(sorted(set(bad))), expected='log and skip the entry (as the JSON loader and the live disconnect path do)')
+        else:
+            rep.ok('C18.f', fname, f.loc, 'store-level failures of one entry are handled inside the iteration; only database errors propagate')
+    rep.floor('C18.f', n, 2, 'registration application loops')
+
+
+RULES = [('C18.f', rule_f), ('C18.a', rule_a), ('C18.b', rule_b), ('C18.c', rule_c), ('C18.d', rule_d), ('C18.e', rule_e)]
